@@ -576,6 +576,26 @@ def expected_sources(label, props, attrs, vals):
     return e
 
 
+def spell_page_numbers(pagenos, k):
+    """The page_numbers argument for the model's set of indices - any container will do and only membership counts:
+    a set, a sorted list, an unsorted list with a duplicated entry, a tuple with a negative and an out-of-range entry
+    (and duplicates), a dict; the empty selection as None, [], () or an empty set (falsy = all pages)."""
+    pagenos = sorted(pagenos)
+    if not pagenos:
+        return [None, [], (), set(), None][k % 5]
+    lo = pagenos[0]
+    form = k % 5
+    if form == 0:
+        return set(pagenos)
+    if form == 1:
+        return list(pagenos)
+    if form == 2:
+        return [lo] + list(reversed(pagenos)) + [lo]            # unsorted, the smallest entry three times
+    if form == 3:
+        return tuple([lo, -1] + pagenos + [99, lo, -1])          # negative and out-of-range entries, duplicates
+    return dict.fromkeys(pagenos)
+
+
 BLANK_FORMS = ("none", "empty-array", "empty-stream")
 
 
@@ -651,7 +671,7 @@ def eval_tree_case(rec, attrs, variant, shift, geom, deep=True, text=True, blank
                     findings.append(("inherit:" + a, "page %s has %s from source %r, nearest ancestor defining it is %r on %s"
                                      % (lab, a, srcs[a], want[a], detail)))
     # ---- get_pages: selection
-    pn_arg = (set(pagenos) if variant == 0 else list(pagenos)) if pagenos else (None if variant == 0 else [])
+    pn_arg = spell_page_numbers(pagenos, shift + 2 * variant)
     index_of = {p.pageid: i for i, p in enumerate(pages)}
 
     def judge_selection(got, site):
@@ -662,8 +682,8 @@ def eval_tree_case(rec, attrs, variant, shift, geom, deep=True, text=True, blank
                              % (site, pagenos, maxpages, len(pages), got, rec["refsel"])))
             return True
         kind = "extra" if set(got) - set(rec["refsel"]) else "missing" if set(rec["refsel"]) - set(got) else "order"
-        findings.append(("selection:%s@%s" % (kind, site), "%s(page_numbers=%s, maxpages=%d) on %d pages yields %s, expected %s on %s"
-                         % (site, pagenos, maxpages, len(pages), got, rec["refsel"], detail)))
+        findings.append(("selection:%s@%s" % (kind, site), "%s(page_numbers=%r, maxpages=%d) on %d pages yields %s, expected %s on %s"
+                         % (site, pn_arg, maxpages, len(pages), got, rec["refsel"], detail)))
         return False
 
     ok, sel = guarded("PDFPage.get_pages", lambda: list(OB.PDFPage.get_pages(BytesIO(data), pn_arg, maxpages=maxpages)),
